@@ -46,6 +46,7 @@ type deferEntry struct {
 }
 
 type State struct {
+	wild   []string // substrings of heap-array names havoced wholesale so far (for lazily declared arrays)
 	cells  map[cellKey]Val
 	heap   map[string]string
 	alloc  string
@@ -65,6 +66,7 @@ func (s *State) clone() *State {
 		n.ghost[k] = v
 	}
 	n.defers = append([]deferEntry(nil), s.defers...)
+	n.wild = append([]string(nil), s.wild...)
 	return n
 }
 
@@ -84,6 +86,7 @@ type Frame struct {
 }
 
 type loopInfo struct {
+	wholeNames []string
 	lockNames []string
 	ord    int
 	header *ssa.BasicBlock
@@ -120,6 +123,8 @@ type FnCtx struct {
 	lockInit  map[string][][2]string
 	callRes   []Val
 	retRes    map[string]Val
+	callArgs  []Val
+	frameTargets []modTarget
 	dry       int
 	noFacts   int
 	qfacts    [][]string
@@ -183,6 +188,13 @@ func (c *FnCtx) heapGet(st *State, name, sort string) string {
 			init = "(store " + init + " " + li[0] + " " + li[1] + ")"
 		}
 		c.sc.assert(sEq(v, init))
+	}
+	for _, w := range st.wild {
+		if strings.Contains(name, w) && !(c.sweep && strings.HasPrefix(name, "LK:")) {
+			// the array was havoced wholesale before it was first mentioned
+			v = c.sc.fresh(name, sort)
+			break
+		}
 	}
 	st.heap[name] = v
 	// all states share the initial version by name, so no propagation needed
@@ -478,6 +490,17 @@ func (c *FnCtx) merge(ins []edgeIn) (*State, string) {
 	reach := c.sc.fresh("reach", "Bool")
 	c.sc.assert(sEq(reach, sOr(conds...)))
 	out := &State{cells: map[cellKey]Val{}, heap: map[string]string{}, ghost: map[string]Val{}}
+	{
+		seen := map[string]bool{}
+		for _, in := range ins {
+			for _, w := range in.st.wild {
+				if !seen[w] {
+					seen[w] = true
+					out.wild = append(out.wild, w)
+				}
+			}
+		}
+	}
 	mergeTerm := func(prefix, sort string, terms []string) string {
 		same := true
 		for _, t := range terms[1:] {
@@ -594,14 +617,29 @@ func (c *FnCtx) merge(ins []edgeIn) (*State, string) {
 		al = append(al, in.st.alloc)
 	}
 	out.alloc = mergeTerm("alloc", "Int", al)
-	for k := range ins[0].st.ghost {
+	gkeys := map[string]bool{}
+	for _, in := range ins {
+		for k := range in.st.ghost {
+			gkeys[k] = true
+		}
+	}
+	var gsorted []string
+	for k := range gkeys {
+		gsorted = append(gsorted, k)
+	}
+	sort.Strings(gsorted)
+	for _, k := range gsorted {
 		var vs []Val
 		ok := true
 		for _, in := range ins {
 			v, has := in.st.ghost[k]
 			if !has {
-				ok = false
-				break
+				if strings.HasPrefix(k, "$ev.") {
+					v = mkInt("0", nil) // event counters start at zero
+				} else {
+					ok = false
+					break
+				}
 			}
 			vs = append(vs, v)
 		}
